@@ -120,9 +120,19 @@ def gen(tier, rng):
             cases.append(Case(sess.session(["R5000"] + typeit + final_run(prog, [], final)), sig=key + "\n#then " + final, tag="fresh",
                               meta=("fresh", pi, None)))
             for pre in NEW_PRES:
-                calls = ["R5000"] + [sess.E(l) for l in pre] + [sess.E("RUN"), "R5000", sess.E("NEW"), "R5000"] + typeit
-                cases.append(Case(sess.session(calls + final_run(prog, [], final)), sig=key + "\n#prefix: " + " / ".join(pre) + " ; RUN ; NEW\n#then " + final,
-                                  tag="prefix-new-entry", meta=("hist", pi, "new-entry")))
+                data_nums = [l.split(" ")[0] for l in pre if l.split(" ", 1)[1].startswith("DATA")]
+                other_nums = [l.split(" ")[0] for l in pre if not l.split(" ", 1)[1].startswith("DATA")]
+                # the reset is reached directly, or after the DATA lines were deleted (the reset then runs on a program without DATA),
+                # and it is NEW, or CLEAR followed by deleting the remaining lines one by one
+                resets = [("NEW", [sess.E("NEW"), "R5000"]),
+                          ("delete DATA lines ; NEW", [sess.E(n) for n in data_nums] + [sess.E("NEW"), "R5000"]),
+                          ("delete DATA lines ; CLEAR ; delete the rest", [sess.E(n) for n in data_nums] + [sess.E("CLEAR"), "R5000"] + [sess.E(n) for n in other_nums]),
+                          ("delete DATA lines ; PRINT ; NEW", [sess.E(n) for n in data_nums] + [sess.E('PRINT "x";'), "R5000", sess.E("NEW"), "R5000"])]
+                for rname, rcalls in resets:
+                    calls = ["R5000"] + [sess.E(l) for l in pre] + [sess.E("RUN"), "R5000"] + rcalls + typeit
+                    cases.append(Case(sess.session(calls + final_run(prog, [], final)),
+                                      sig=key + "\n#prefix: " + " / ".join(pre) + " ; RUN ; " + rname + "\n#then " + final,
+                                      tag="prefix-new-entry", meta=("hist", pi, "new-entry")))
             pi += 1
     # NEW leaves an empty listing
     for pi in range(20):
